@@ -205,6 +205,9 @@ func runKeyCase[K comparable](rt *rapid.T, kt keyType[K]) {
 				wv, wok := ref[k]
 				if !wok {
 					wv = v
+					if gv == 0 {
+						wv = 0 // not loaded: the companion value is the given one (documented) or zero; only the flag is pinned
+					}
 				}
 				ref[k] = v
 				if p == "" {
